@@ -230,6 +230,10 @@ SEEDS = [
     "a = 2\nb = a + 1\nk = 2*b\ny = 0\nwhile true:\n    y = y + k\nend\n",
     "a = 1\nb = a\na = 2\ny = 0\nwhile true:\n    y = y + a + 10*b\nend\n",
     "x = Bernoulli(1/2)\nk = 2*x + 1\ny = 0\nwhile true:\n    y = y + k\n    x = x + 1\nend\n",
+    # simultaneous assignment whose right-hand sides are textually identical: the draws are independent
+    "a = 0\nb = 0\ns = 0\nwhile true:\n    a, b = 1 {1/2} 0, 1 {1/2} 0\n    s = s + a*b\nend\n",
+    "x = 0\ny = 0\nwhile true:\n    x, y = x + 1 {1/2} x - 1, x + 1 {1/2} x - 1\nend\n",
+    "a = 0\nb = 0\ns = 0\nwhile true:\n    a, b = Bernoulli(1/2), Bernoulli(1/2)\n    s = s + a*b\nend\n",
     # delayed constant chain (acyclic solver, zero-coefficient chains)
     "x = 0\ny = 0\nwhile true:\n    y = x\n    x = 1\nend\n",
     "x = 0\ny = 0\nz = 0\nwhile true:\n    z = y\n    y = x\n    x = x + 1\nend\n",
